@@ -241,6 +241,8 @@ pub fn mirror_points(poly: &Polytope, points: &Array2<f64>, n_iterations: usize)
         // C05: a witness is cached only after it passed `contains` for this very polytope (the LP point itself, or its repaired version)
         r matches NodeState::FeasibleWitness(v) ==> v@.len() == 1 && contains_tol(*poly, v@[0]) && lp_status(*poly) is Optimal,
         r is Feasible ==> lp_status(*poly) is Unbounded,
+        // "don't know" only after an LP Error or an Optimal answer whose point is not in the polytope (and could not be repaired)
+        r is Indeterminate ==> lp_status(*poly) is Error || (lp_status(*poly) matches PolytopeStatus::Optimal(w) && !contains_tol(*poly, w)),
 //@end
 
 
